@@ -4,6 +4,7 @@ use crate::probe::mon_rng;
 use crate::rt::{attempt, decide, guard, Ctx, Out};
 use crate::scen::*;
 use crate::schemes::{below, range, Scheme};
+use ark_ff::UniformRand;
 use ark_poly::Polynomial;
 use ark_poly_commit::{BatchLCProof, Evaluations, LCTerm, LabeledCommitment, LinearCombination, PolynomialCommitment, QuerySet};
 use ark_serialize::{CanonicalDeserialize, CanonicalSerialize, Compress, Validate};
@@ -198,6 +199,14 @@ fn case<S: Scheme>(ctx: &mut Ctx, rng: &mut ChaCha20Rng) {
         let lcs = [lc];
         let res = attempt(|| PcOf::<S>::open_combinations(&tx.w.ck, lcs.iter(), tx.polys.iter(), tx.c.comms.iter(), &qs, &mut tx.sponge(), tx.c.states.iter(), Some(&mut r)));
         if let Ok(lp) = res {
+            // every shape of the optional evaluation list (the default open_combinations ships Some(vec![]) when
+            // nothing but constants is queried)
+            for evs in [None, Some(vec![]), Some(vec![FOf::<S>::from(7u64)]), Some((0..3).map(|_| FOf::<S>::rand(rng)).collect::<Vec<_>>())] {
+                let v = BatchLCProof::<FOf<S>, BatchProofOf<S>> { proof: lp.proof.clone(), evals: evs.clone() };
+                if let Some(v2) = roundtrip::<BatchLCProof<FOf<S>, BatchProofOf<S>>>(ctx, "batch-lc-proof", &v, &desc, rng) {
+                    ctx.check(v2.evals == evs, "batch-lc-proof", "deserialize", desc.clone(), || json!({"evals_in": evs.as_ref().map(|e| e.len()), "evals_out": v2.evals.as_ref().map(|e| e.len())}));
+                }
+            }
             if let Some(lp2) = roundtrip::<BatchLCProof<FOf<S>, BatchProofOf<S>>>(ctx, "batch-lc-proof", &lp, &desc, rng) {
                 if let Some(vk2) = &vk2 {
                     let chk = |vk: &VkOf<S>, p: &BatchLCProof<FOf<S>, BatchProofOf<S>>, e: &Evaluations<PtOf<S>, FOf<S>>| -> Out {
